@@ -6,20 +6,20 @@ import VueJsx.Visitor
 namespace VueJsx
 
 /-- An inline type literal: its property, method, getter (and call) signatures are what is resolved. -/
-theorem C16_literal (fuel : Nat) (st : St) (as las : List String) (members : List Node) :
+theorem C16_literal (fuel : Nat) (st : St) (as las : List String) (members : List Node) (hg : st.typeGaveUp = false) :
     resolveElements (fuel + 1) st (.mk .tsTypeLit as [.mk .list las members]) = (refineMembers members, st) := by
-  simp [resolveElements]
+  simp [resolveElements, enterRes_ok _ _ hg]
 
 /-- An alias is its target (alias chains follow by repeating this step). -/
 theorem C16_alias (fuel : Nat) (st : St) (n b : String) (ir : List String) (iks : List Node) (as : List String) (tp target : Node)
-    (h : lookupReg st.typeAliases (n, b) = some target) :
+    (h : lookupReg st.typeAliases (n, b) = some target) (hg : st.typeGaveUp = false) :
     resolveElements (fuel + 1) st (.mk .tsTypeRef as [.mk .ident (n :: b :: ir) iks, tp]) = resolveElements fuel st target := by
-  simp [resolveElements, h]
+  simp [resolveElements, h, enterRes_ok _ _ hg]
 
 /-- Parentheses do not matter. -/
-theorem C16_paren (fuel : Nat) (st : St) (as : List String) (t : Node) :
+theorem C16_paren (fuel : Nat) (st : St) (as : List String) (t : Node) (hg : st.typeGaveUp = false) :
     resolveElements (fuel + 1) st (.mk .tsParen as [t]) = resolveElements fuel st t := by
-  simp [resolveElements]
+  simp [resolveElements, enterRes_ok _ _ hg]
 
 /-- `Partial<T>` makes every property and method of T optional, `Required<T>` makes every one required — and neither
     adds or removes a key. -/
@@ -58,23 +58,23 @@ theorem C16_required_iff_not_optional (irs : List PropIr) (key : Node) (types : 
 
 /-- A reference bound in the file that is neither a local alias nor a local interface (an import) is reported. -/
 theorem C16_imported_type_reported (fuel : Nat) (st : St) (n b : String) (ir : List String) (iks : List Node) (as : List String) (tp : Node)
-    (h1 : lookupReg st.typeAliases (n, b) = none) (h2 : lookupReg st.interfaces (n, b) = none) (hb : b ≠ "u") :
+    (h1 : lookupReg st.typeAliases (n, b) = none) (h2 : lookupReg st.interfaces (n, b) = none) (hb : b ≠ "u") (hg : st.typeGaveUp = false) :
     resolveElements (fuel + 1) st (.mk .tsTypeRef as [.mk .ident (n :: b :: ir) iks, tp])
       = ([], st.err "Error: Types from other modules can't be resolved.") := by
-  simp [resolveElements, h1, h2, hb]
+  simp [resolveElements, h1, h2, hb, enterRes_ok _ _ hg]
 
 /-- An undeclared global name that is not one of the supported utility types is reported. -/
 theorem C16_unknown_global_reported (fuel : Nat) (st : St) (n : String) (ir : List String) (iks : List Node) (as : List String) (tp : Node)
     (h1 : lookupReg st.typeAliases (n, "u") = none) (h2 : lookupReg st.interfaces (n, "u") = none)
-    (hn : n ≠ "Partial" ∧ n ≠ "Required" ∧ n ≠ "Pick" ∧ n ≠ "Omit") :
+    (hn : n ≠ "Partial" ∧ n ≠ "Required" ∧ n ≠ "Pick" ∧ n ≠ "Omit") (hg : st.typeGaveUp = false) :
     resolveElements (fuel + 1) st (.mk .tsTypeRef as [.mk .ident (n :: "u" :: ir) iks, tp])
       = ([], st.err "Error: Unresolvable type reference or unsupported built-in utility type.") := by
-  simp [resolveElements, h1, h2, hn.1, hn.2.1, hn.2.2.1, hn.2.2.2]
+  simp [resolveElements, h1, h2, hn.1, hn.2.1, hn.2.2.1, hn.2.2.2, enterRes_ok _ _ hg]
 
 /-- An unsupported type construct (keyword types, keyof, typeof, mapped types, …) is reported. -/
-theorem C16_unsupported_construct_reported (fuel : Nat) (st : St) (as : List String) (ks : List Node) :
+theorem C16_unsupported_construct_reported (fuel : Nat) (st : St) (as : List String) (ks : List Node) (hg : st.typeGaveUp = false) :
     resolveElements (fuel + 1) st (.mk .tsKeyword as ks) = ([], st.err "Error: Unresolvable type.") := by
-  simp [resolveElements]
+  simp [resolveElements, enterRes_ok _ _ hg]
 
 /-! ### declaration order does not matter: the registry is computed from the whole module up front -/
 
@@ -183,7 +183,8 @@ def PTy.depthL : List PTy → Nat
 end
 
 /-- no user declaration named like anything the grammar references -/
-def NoReg16 (st : St) : Prop := ∀ key, lookupReg st.typeAliases key = none ∧ lookupReg st.interfaces key = none
+def NoReg16 (st : St) : Prop :=
+  (∀ key, lookupReg st.typeAliases key = none ∧ lookupReg st.interfaces key = none) ∧ st.typeGaveUp = false
 
 theorem refineMembers_mems (ms : List Mem) : refineMembers (ms.map Mem.toNode) = ms.map Mem.toNode := by
   unfold refineMembers
@@ -203,16 +204,16 @@ theorem map_setOptional (v : Bool) (ms : List Mem) :
 mutual
 theorem resolveElements_eq_members : ∀ (t : PTy) (fuel : Nat) (st : St), NoReg16 st → t.depth ≤ fuel →
     resolveElements fuel st t.toNode = (t.members.map Mem.toNode, st)
-  | .lit ms, fuel, st, _, hd => by
+  | .lit ms, fuel, st, hr, hd => by
     cases fuel with
     | zero => simp [PTy.depth] at hd
-    | succ f => simp [PTy.toNode, nList, resolveElements, PTy.members, refineMembers_mems]
+    | succ f => simp [PTy.toNode, nList, resolveElements, PTy.members, refineMembers_mems, enterRes_ok _ _ hr.2]
   | .paren t, fuel, st, hr, hd => by
     cases fuel with
     | zero => simp [PTy.depth] at hd
     | succ f =>
       have ih := resolveElements_eq_members t f st hr (by simp [PTy.depth] at hd; omega)
-      simp only [PTy.toNode, resolveElements, PTy.members, ih]
+      simp only [PTy.toNode, resolveElements, PTy.members, ih, enterRes_ok _ _ hr.2]
   | .inter ts, fuel, st, hr, hd => by
     cases fuel with
     | zero => simp [PTy.depth] at hd
@@ -220,7 +221,7 @@ theorem resolveElements_eq_members : ∀ (t : PTy) (fuel : Nat) (st : St), NoReg
       have ih := resolveElementsL_eq_members ts f st [] hr (by simp [PTy.depth] at hd; omega)
       simp only [PTy.toNode, nList, PTy.members]
       rw [resolveElements]
-      simpa using ih
+      simpa [enterRes_ok _ _ hr.2] using ih
   | .union ts, fuel, st, hr, hd => by
     cases fuel with
     | zero => simp [PTy.depth] at hd
@@ -228,7 +229,7 @@ theorem resolveElements_eq_members : ∀ (t : PTy) (fuel : Nat) (st : St), NoReg
       have ih := resolveElementsL_eq_members ts f st [] hr (by simp [PTy.depth] at hd; omega)
       simp only [PTy.toNode, nList, PTy.members]
       rw [resolveElements]
-      simpa using ih
+      simpa [enterRes_ok _ _ hr.2] using ih
   | .partial_ t, fuel, st, hr, hd => by
     cases fuel with
     | zero => simp [PTy.depth] at hd
@@ -236,7 +237,7 @@ theorem resolveElements_eq_members : ∀ (t : PTy) (fuel : Nat) (st : St), NoReg
       have ih := resolveElements_eq_members t f st hr (by simp [PTy.depth] at hd; omega)
       simp only [PTy.toNode, nIdent, nList, PTy.members]
       rw [resolveElements]
-      simp only [(hr ("Partial", "u")).1, (hr ("Partial", "u")).2, typeParamsList, List.head?, ih, map_setOptional]
+      simp only [enterRes_ok _ _ hr.2, (hr.1 ("Partial", "u")).1, (hr.1 ("Partial", "u")).2, typeParamsList, List.head?, ih, map_setOptional]
       simp
   | .required_ t, fuel, st, hr, hd => by
     cases fuel with
@@ -245,7 +246,7 @@ theorem resolveElements_eq_members : ∀ (t : PTy) (fuel : Nat) (st : St), NoReg
       have ih := resolveElements_eq_members t f st hr (by simp [PTy.depth] at hd; omega)
       simp only [PTy.toNode, nIdent, nList, PTy.members]
       rw [resolveElements]
-      simp only [(hr ("Required", "u")).1, (hr ("Required", "u")).2, typeParamsList, List.head?, ih, map_setOptional]
+      simp only [enterRes_ok _ _ hr.2, (hr.1 ("Required", "u")).1, (hr.1 ("Required", "u")).2, typeParamsList, List.head?, ih, map_setOptional]
       simp
 theorem resolveElementsL_eq_members : ∀ (ts : List PTy) (fuel : Nat) (st : St) (acc : List Node), NoReg16 st →
     PTy.depthL ts ≤ fuel →
